@@ -1,5 +1,10 @@
 import A2Verif.Lemmas.FsProdosFree
 import A2Verif.Lemmas.FsProdosModify
+import A2Verif.Lemmas.FsProdosDelete
+import A2Verif.Lemmas.FsProdosPut
+import A2Verif.Lemmas.FsProdosOps
+import A2Verif.Lemmas.FsProdosLockPath
+import A2Verif.Lemmas.FsProdosRetype
 import A2Verif.Model.Read.ProdosT
 import A2Verif.Model.VolSpec
 /-!
@@ -7,17 +12,29 @@ import A2Verif.Model.VolSpec
 
 The model is a transcription of a2kit's ProDOS module, tied byte for byte to the real code after every operation of
 every generated history (`Drv/FsProdos.lean`, `harness/src/fam/fs_prodos.rs`).  This file collects the theorems about
-it.  **The refinement to the abstract volume specification (`Inv`, `step_refines`, `history_refines` as for the Pascal
-model) is not proved for ProDOS**; what is proved, for all inputs:
+it.  **The full refinement chain (`Inv`, `step_refines` for every operation, `history_refines`, as for the Pascal model)
+is not proved for ProDOS.**  What is proved, for all inputs:
 
+* **refinement of `lock`, `unlock` and `retype` for files of the volume directory** (`prodos_lock_refines`,
+  `prodos_unlock_refines`, `prodos_retype_refines`): if the image reads (total reader `Read.ProdosT.read`) as a well-formed volume `v` and
+  `lock(path)` succeeds for a one-component path, the new image reads as a well-formed `v'` and `v → v'` is a transition
+  the abstract specification allows for `lock` of the canonical (upper-cased) name — through: the exact image the
+  model writes (`modify_spec`), the reading of an image in which one access byte changed (`readDir_mod`, `read_mod`,
+  on top of the congruence `readDir_congr`: *a reading depends only on the units it names*), and the correspondence
+  between the model's search and the reader's walk (`find_root_reaches`: what the search finds, the reader lists, under
+  the upper-cased name);
 * the allocator: `allocate_block`/`deallocate_block` flip exactly one bit, `num_free_blocks` counts the blocks marked
   free, `get_available_block` is first fit — sound and complete (`prodos_first_fit_sound`, `prodos_first_fit_complete`:
   the allocator half of the C04 acceptance clause);
 * `stat().free_blocks` is the length of the free list the independent reader extracts from the same image
   (`prodos_stat_free_is_reading`);
-* `lock`, `unlock`, `retype` (through `modify`) rewrite exactly one directory entry and clear that block's bitmap bit,
-  the access byte `lock` stores is one the reader calls locked, the byte `unlock` stores one it calls unlocked
-  (`prodos_lock_writes_one_entry`, …);
+* `lock`, `unlock`, `retype`, `rename` (through `modify`) rewrite exactly one directory entry and clear that block's bitmap
+  bit, the access byte `lock` stores is one the reader calls locked, the byte `unlock` stores one it calls unlocked
+  (`prodos_lock_writes_one_entry`, …, `rename_spec`);
+* the exact image after `put` of a one-chunk file (`put_seedling_spec`, `prodos_put_seedling_writes`), after `create`
+  (`mkdir_spec`), after `delete` of a file whose entry sits in its directory's key block (`delete_file_spec`), each given
+  what the search (`prepare_to_write` / `find_file`) returned; `delete` frees exactly the blocks the independent reader
+  lists as owned by a seedling / sapling entry (`prodos_seedling_delete_frees_owned`, `prodos_sapling_delete_frees_owned`);
 
 and, evaluated in the kernel on a small volume (`Props/FsProdosExamples.lean`), that `format` establishes the invariant
 `InvB` and that short histories (sparse put; put, lock, refused delete) are valid traces of the abstract specification
@@ -196,6 +213,95 @@ theorem prodos_stat_free_is_reading (d : Disk) (kb : Bytes)
     ∃ fr, Read.Prodos.bitmapFree d.raw (le16 kb 39) d.total = .ok fr ∧ (statFree d).1 = .ok fr.length :=
   statFree_eq_reader_free d kb hclosed hnb hkb hcnt hblk
 
+/-- **`delete` of a seedling file frees exactly its data block** (C04): the list the independent reader reports as `owned`
+for a seedling entry is `[key]` -/
+theorem prodos_seedling_delete_frees_owned (d : Disk) (buf : Array Nat) (e : Bytes) (h : BufOpen d buf)
+    (hst : Ent.storageType e = stSeedling) (hcov : Ent.keyPtr e / 8 < buf.size) :
+    ∃ buf', deallocFileBlocks e d = (.ok (), { d with bitmap := some buf' }) ∧
+      ∀ j, freeB buf' j = ([Ent.keyPtr e].contains j || freeB buf j) := by
+  refine ⟨setBit buf (Ent.keyPtr e), ?_, ?_⟩
+  · unfold deallocFileBlocks
+    simp only [hst, ↓reduceIte]
+    exact deallocate_open d buf _ h.isOpen hcov
+  · intro j
+    rw [freeB_setBit buf _ j h.bytes hcov]
+    by_cases hj : j = Ent.keyPtr e
+    · simp [hj]
+    · simp [hj]
+
+/-- **`delete` of a sapling file frees exactly what the independent reader says it owns** (C04): the index block and
+the blocks its non-zero pointers name (`saplingOwned` = the reader's `key :: ps.map (·.2)`); every other mark is kept,
+only the index block's unit is rewritten (halves swapped) -/
+theorem prodos_sapling_delete_frees_owned (d : Disk) (buf : Array Nat) (e : Bytes) (ib : Bytes) (h : BufOpen d buf)
+    (hst : Ent.storageType e = stSapling)
+    (hnb : d.bitmapBlocks.contains (Ent.keyPtr e) = false) (hib : d.raw.units[Ent.keyPtr e]? = some ib)
+    (hcov : ∀ q ∈ saplingOwned (Ent.keyPtr e) ib, q / 8 < buf.size) :
+    ∃ d' buf', deallocFileBlocks e d = (.ok (), d') ∧ d'.bitmap = some buf' ∧
+      (∀ j, freeB buf' j = ((saplingOwned (Ent.keyPtr e) ib).contains j || freeB buf j)) ∧
+      (∀ j, j ≠ Ent.keyPtr e → d'.raw.units[j]? = d.raw.units[j]?) := by
+  have hd : deallocFileBlocks e d = deallocIndexBlock (Ent.keyPtr e) d := by
+    unfold deallocFileBlocks
+    have h1 : ¬ (stSapling = stSeedling) := by decide
+    simp only [hst, ↓reduceIte]
+    rw [if_neg h1]
+  rw [hd]
+  exact sapling_dealloc_frees_owned d buf _ ib h.isOpen h.bytes hnb hib hcov
+
+/-- **`put` of a one-chunk file** (C01 content, C02 frame, C04 allocation): given what `prepare_to_write` returned (name,
+parent key block `key`, free slot `loc`, first free block `nb`), `put` succeeds with the file image's length; afterwards
+the data block holds the chunk padded with zeros, every unit other than the parent key block, the slot's block and
+the data block is untouched, and in the bitmap exactly block `nb` has become used.  (The exact contents of the
+two directory blocks are in `put_seedling_spec`.) -/
+theorem prodos_put_seedling_writes (d : Disk) (buf : Array Nat) (f : FImg) (time : Bytes) (nm : Bytes) (key nb : Nat) (loc : Loc)
+    (kblk lblk c : Bytes) (acc : Nat)
+    (hf1 : f.fsOk = true) (hf2 : f.chunkLen = blockSize) (hch : f.chunks = [(0, c)])
+    (hlen : ¬ (f.fsType.length < 1 ∨ f.version.length < 1 ∨ f.minVersion.length < 1 ∨ f.aux.length < 2))
+    (hacc : f.access[0]? = some acc)
+    (hopen : BufOpen d buf)
+    (hprep : prepareToWrite f.fullPath d = (.ok (nm, key, loc, nb), d))
+    (hkb : d.bitmapBlocks.contains key = false) (hkblk : d.raw.units[key]? = some kblk) (hklen : kblk.length = 512)
+    (hkk : kindOf key kblk ≠ DKind.entry) (hkc : le16 (kblk.take dirLen) (4 + 33) + 1 ≤ 65535)
+    (hkcov : key / 8 < buf.size) (hkused : freeB buf key = false)
+    (hlb : d.bitmapBlocks.contains loc.block = false) (hlblk : d.raw.units[loc.block]? = some lblk) (hllen : lblk.length = 512)
+    (hlidx : IdxOkFor loc lblk) (hlcov : loc.block / 8 < buf.size) (hlused : freeB buf loc.block = false)
+    (hnbfree : freeB buf nb = true) (hnbmin : ∀ j, j < nb → freeB buf j = false) (hnbt : nb < d.total) (hnb16 : nb < 65536)
+    (hnbb : d.bitmapBlocks.contains nb = false) (hnbsz : nb < d.raw.units.size) (hnbcov : nb / 8 < buf.size) :
+    ∃ d' buf', put f time {} d = (.ok f.eof, d') ∧ d'.bitmap = some buf' ∧
+      d'.raw.units[nb]? = some (quantize (c.take blockSize)) ∧
+      (∀ j, j ≠ key → j ≠ loc.block → j ≠ nb → d'.raw.units[j]? = d.raw.units[j]?) ∧
+      (∀ j, freeB buf' j = (if j = nb then false else freeB buf j)) := by
+  have hspec := put_seedling_spec d buf f time nm key nb loc kblk lblk c acc hf1 hf2 hch hlen hacc hopen hprep hkb hkblk hklen
+    hkk hkc hkcov hkused hlb hlblk hllen hlidx hlcov hlused hnbfree hnbmin hnbt hnb16 hnbb hnbsz hnbcov
+  have hne : nb ≠ loc.block := by intro h; rw [h] at hnbfree; rw [hnbfree] at hlused; cases hlused
+  have hksz : key < d.raw.units.size := by
+    rcases Nat.lt_or_ge key d.raw.units.size with h | h
+    · exact h
+    · rw [Array.getElem?_eq_none h] at hkblk; cases hkblk
+  have hlsz : loc.block < d.raw.units.size := by
+    rcases Nat.lt_or_ge loc.block d.raw.units.size with h | h
+    · exact h
+    · rw [Array.getElem?_eq_none h] at hlblk; cases hlblk
+  refine ⟨_, _, hspec, rfl, ?_, ?_, ?_⟩
+  · show (setUnit (setUnit _ nb _) loc.block _).units[nb]? = _
+    rw [setUnit_other _ _ _ _ (Ne.symm hne), setUnit_self _ _ _ (by rw [setUnit_size, setUnit_size]; exact hnbsz)]
+  · intro j hjk hjl hjn
+    show (setUnit (setUnit (setUnit (setUnit d.raw key _) loc.block _) nb _) loc.block _).units[j]? = _
+    rw [setUnit_other _ _ _ _ (Ne.symm hjl), setUnit_other _ _ _ _ (Ne.symm hjn), setUnit_other _ _ _ _ (Ne.symm hjl),
+      setUnit_other _ _ _ _ (Ne.symm hjk)]
+  · intro j
+    have hb1 : ∀ j, freeB (clearBit buf key) j = freeB buf j := freeB_clearBit_used buf key hopen.bytes hkcov hkused
+    have hok1 := bytesOk_clearBit buf key hopen.bytes
+    have hb2 : ∀ j, freeB (clearBit (clearBit buf key) loc.block) j = freeB buf j := by
+      intro j
+      rw [freeB_clearBit_used (clearBit buf key) loc.block hok1 (by rw [size_clearBit]; exact hlcov) (by rw [hb1]; exact hlused) j, hb1]
+    have hok2 := bytesOk_clearBit _ loc.block hok1
+    have hok3 := bytesOk_clearBit _ nb hok2
+    have hb3 : ∀ j, freeB (clearBit (clearBit (clearBit buf key) loc.block) nb) j = (if j = nb then false else freeB buf j) := by
+      intro j
+      rw [freeB_clearBit _ nb j hok2 (by rw [size_clearBit, size_clearBit]; exact hnbcov), hb2]
+    rw [freeB_clearBit_used _ loc.block hok3 (by rw [size_clearBit, size_clearBit, size_clearBit]; exact hlcov)
+      (by rw [hb3]; simp [Ne.symm hne, hlused]) j, hb3]
+
 /-- **`lock` writes one entry** (C02 frame, C19): found at `loc`, the file's entry gets the access byte `lockAcc`, which
 the independent reader calls locked; every other unit of the image is the same object as before -/
 theorem prodos_lock_writes_one_entry (d : Disk) (buf : Array Nat) (path : Bytes) (loc : Loc) (blk : Bytes)
@@ -241,5 +347,48 @@ theorem prodos_protection_bytes :
     (∀ a : Fin 256, readerLocked (lockAcc a.val) = true) ∧ (∀ a : Fin 256, readerLocked (unlockAcc a.val) = false) ∧
     (∀ a : Fin 256, readerLocked a.val = false → (a.val &&& 0x80 ≠ 0 ∧ a.val &&& 0x40 ≠ 0)) :=
   ⟨fun a => (lockAcc_locked a).1, fun a => (unlockAcc_unlocked a).1, unlocked_passes_tests⟩
+
+/-- **M2 for `lock`, files of the volume directory** (C02, C03, C19).  `path` has one component (`NAME` or `/VOL/NAME`); the
+bitmap buffer is open; the image reads (total reader) as the well-formed volume `v`; the volume directory has the
+standard geometry; its blocks are full blocks of bytes with last byte zero, none a cached bitmap block, all covered by
+the buffer (`ChainOk`).  If `lock(path)` succeeds, the new image reads as a well-formed `v'` and `v → v'` satisfies every
+condition of the abstract specification for `lock` of the upper-cased name: the record exists, becomes protected,
+keeps content, length, blocks, type and aux, and every other record is unchanged. -/
+theorem prodos_lock_refines (d d' : Disk) (buf : Array Nat) (path vn nm kb : Bytes) (v : Vol)
+    (hkb : d.raw.units[2]? = some kb) (h2nb : d.bitmapBlocks.contains 2 = false)
+    (hnodes : normalizePath (volName (slice kb 4 entryLen)) path = .ok [vn, nm])
+    (hopen : d.bitmap = some buf)
+    (hread : Read.ProdosT.read d.raw = .ok v) (hwf : v.wfB = true)
+    (hgeo : kb.getD 35 0 = 39 ∧ kb.getD 36 0 = 13)
+    (hch : ∀ fsL ch, Read.ProdosT.readTree d.raw v.hi = .ok (fsL, ch) → ChainOk d buf ch)
+    (hrun : lock path d = (.ok (), d')) :
+    ∃ v', Read.ProdosT.read d'.raw = .ok v' ∧ v'.wfB = true ∧ stepOk prodosParams v (.lock (upper nm)) true v' = true :=
+  lock_path_refines d d' buf path vn nm kb v hkb h2nb hnodes hopen hread hwf hgeo hch hrun
+
+/-- **M2 for `unlock`, files of the volume directory** (same hypotheses as `prodos_lock_refines`) -/
+theorem prodos_unlock_refines (d d' : Disk) (buf : Array Nat) (path vn nm kb : Bytes) (v : Vol)
+    (hkb : d.raw.units[2]? = some kb) (h2nb : d.bitmapBlocks.contains 2 = false)
+    (hnodes : normalizePath (volName (slice kb 4 entryLen)) path = .ok [vn, nm])
+    (hopen : d.bitmap = some buf)
+    (hread : Read.ProdosT.read d.raw = .ok v) (hwf : v.wfB = true)
+    (hgeo : kb.getD 35 0 = 39 ∧ kb.getD 36 0 = 13)
+    (hch : ∀ fsL ch, Read.ProdosT.readTree d.raw v.hi = .ok (fsL, ch) → ChainOk d buf ch)
+    (hrun : unlock path d = (.ok (), d')) :
+    ∃ v', Read.ProdosT.read d'.raw = .ok v' ∧ v'.wfB = true ∧ stepOk prodosParams v (.unlock (upper nm)) true v' = true :=
+  unlock_path_refines d d' buf path vn nm kb v hkb h2nb hnodes hopen hread hwf hgeo hch hrun
+
+/-- **M2 for `retype`, files of the volume directory** (C01/C02: content, length and blocks are kept, every other record
+is unchanged; same hypotheses as `prodos_lock_refines`; `t` is the type code `FileType::from_str` yields, `a` the
+numeric sub-type) -/
+theorem prodos_retype_refines (d d' : Disk) (buf : Array Nat) (path vn nm kb : Bytes) (t a : Nat) (v : Vol)
+    (hkb : d.raw.units[2]? = some kb) (h2nb : d.bitmapBlocks.contains 2 = false)
+    (hnodes : normalizePath (volName (slice kb 4 entryLen)) path = .ok [vn, nm])
+    (hopen : d.bitmap = some buf)
+    (hread : Read.ProdosT.read d.raw = .ok v) (hwf : v.wfB = true)
+    (hgeo : kb.getD 35 0 = 39 ∧ kb.getD 36 0 = 13)
+    (hch : ∀ fsL ch, Read.ProdosT.readTree d.raw v.hi = .ok (fsL, ch) → ChainOk d buf ch)
+    (hrun : retype path (some t) (some a) d = (.ok (), d')) :
+    ∃ v', Read.ProdosT.read d'.raw = .ok v' ∧ v'.wfB = true ∧ stepOk prodosParams v (.retype (upper nm)) true v' = true :=
+  retype_path_refines d d' buf path vn nm kb t a v hkb h2nb hnodes hopen hread hwf hgeo hch hrun
 
 end A2Verif.FsProdos
